@@ -118,7 +118,8 @@ def unquote(string, only_printable=False, unsafe=None, normalize_space=False):
 # NOTE: to safely unquote we don't need to replace invalid character because it would
 # imply that the parsed url was invalid from the start (except for spaces)
 
-UNSAFE_FOR_AUTH_ITEM = b" %@:/?#"
+# NOTE: urlsplit looks for ipv6 brackets in the whole netloc, userinfo included
+UNSAFE_FOR_AUTH_ITEM = b" %@:/?#[]"
 UNSAFE_FOR_PATH = b" %/?#"
 UNSAFE_FOR_QUERY_ITEM = b" %&=#"
 UNSAFE_FOR_FRAGMENT = b" %"
